@@ -51,7 +51,7 @@ func AddAttacks(g *Generated, r *rand.Rand, attackers []string) *Attack {
 		a.Victims[v.ID] = true
 		k++
 		base := fmt.Sprintf("https://%s/evil/%d-%d", ah, labelCounterNext(), k)
-		switch r.Intn(9) {
+		switch r.Intn(11) {
 		case 0: // a note of the attacker that embeds a forged copy as its parent and as its author
 			g.SetDoc(base, map[string]any{"id": base, "type": "Note", "name": "EVILNOTE", "content": "<p>own</p>", "inReplyTo": forgedCopy(v, ah, k), "attributedTo": forgedCopy(victims[r.Intn(len(victims))], ah, k)})
 			a.Forgeries += 2
@@ -85,6 +85,10 @@ func AddAttacks(g *Generated, r *rand.Rand, attackers []string) *Attack {
 		case 7: // an id on the victim host that does not exist there, with attacker content
 			ghost := fmt.Sprintf("https://%s/posts/ghost-%d", v.Host, labelCounterNext())
 			g.SetDoc(base, map[string]any{"id": base, "type": "Note", "name": "EVILGHOST", "content": "<p>x</p>", "inReplyTo": map[string]any{"id": ghost, "type": "Note", "name": "GHOSTX ZZFORGERY by " + ah, "content": "<p>forged</p>"}})
+			a.Forgeries++
+		case 9, 10: // an activity whose object is an inline Create that claims the victim's host and wraps a forged copy (two-level embedding)
+			wrapper := map[string]any{"id": fmt.Sprintf("https://%s/creates/%d", v.Host, labelCounterNext()), "type": "Create", "actor": v.ID, "object": forgedCopy(v, ah, k)}
+			g.SetDoc(base, map[string]any{"id": base, "type": []string{"Announce", "Like", "Create"}[r.Intn(3)], "actor": map[string]any{"type": "Person", "name": "EVILACTOR"}, "object": wrapper})
 			a.Forgeries++
 		case 8: // ping-pong: the attacker's document names the victim's id, the victim's real document is fine
 			g.SetDoc(base, map[string]any{"id": v.ID, "type": "Note", "name": v.Label + "X ZZFORGERY by " + ah, "content": "<p>forged</p>", "replies": map[string]any{"id": v.ID + "/fake-replies", "type": "Collection", "items": []any{forgedCopy(v, ah, k)}}})
